@@ -885,6 +885,11 @@ class Generator(TreeListener):
                             # TODO support nested loops
                             for_loop = f
                             sl = for_loop.index_variable
+                    if sl is not None and dim is None:
+                        raise ValueError(
+                            "Symbol {} was given an index of {} but this symbol "
+                            "is not an array.".format(s.name(), index.name)
+                        )
 
                 if sl is None:
                     sl = self.get_integer(index) if index is not None else None
